@@ -685,6 +685,8 @@ func (fc *FnCtx) enterLoop(li *loopInfo) {
 		}
 		v := fc.freshVal(fmt.Sprintf("loop%d.%s", ord, phi.Comment), phi.Type())
 		fc.assumeHere(fc.typeFacts(v, phi.Type()))
+		// whatever reference the variable holds at the head exists already: it is older than later allocations
+		fc.assumeHere(fc.bornBefore(v, phi.Type()))
 		fc.vals[phi] = v
 		li.havocPhi[phi] = v
 	}
